@@ -391,7 +391,7 @@ def B(b):
 
 
 class RuleTable:
-    """Coq definitions for the rules of one parser (shared by its cases)"""
+    """Coq terms for the rules occurring in one case, bound by let in the case term (keeps the generated files small)"""
 
     def __init__(self, prefix, maybe_placeholders):
         self.prefix = prefix
@@ -409,10 +409,15 @@ class RuleTable:
             syms = L(['(mkSym %s %s %s)' % (S(str(s.name)), B(s.is_term), B(bool(getattr(s, 'filter_out', False))))
                       for s in rule.expansion])
             empty = L([B(b) for b in (o.empty_indices if self.mp else ())])
-            self.defs.append('Definition %s := mkX %s %s %s %s %s %s %s.' % (
-                nm, S(str(rule.origin.name)), S(str(name)), B(bool(rule.alias)), B(bool(o.expand1)),
-                B(bool(o.keep_all_tokens)), syms, empty))
+            self.defs.append((nm, 'mkX %s %s %s %s %s %s %s' % (
+                S(str(rule.origin.name)), S(str(name)), B(bool(rule.alias)), B(bool(o.expand1)),
+                B(bool(o.keep_all_tokens)), syms, empty)))
         return self.names[k]
+
+    def wrap(self, term):
+        for nm, d in reversed(self.defs):
+            term = '(let %s := %s in %s)' % (nm, d, term)
+        return term
 
 
 def coq_forest(f, rt):
@@ -504,9 +509,9 @@ def export_graph_case(root, parser, lexer, text, prefix, fams=None):
     rule_ref = {}
     defs = []
     for k, r in enumerate(parser.rules):
-        nm = '%s_c%d' % (prefix, k)
+        nm = 'c%d' % k
         rule_ref[r] = nm
-        defs.append('Definition %s := mkRule %d %s.' % (nm, nt(r.origin.name), L([sym(x) for x in r.expansion])))
+        defs.append((nm, 'mkRule %d %s' % (nt(r.origin.name), L([sym(x) for x in r.expansion]))))
     lexemes = {}
 
     def label(lb):
@@ -537,7 +542,9 @@ def export_graph_case(root, parser, lexer, text, prefix, fams=None):
     root_label = ('S', str(root.s.name), root.start, root.end)
     term = '(mkA %s %s %s %s %d %d %s %s)' % (L([rule_ref[r] for r in parser.rules]), pairs(tmt), L(['%d' % x for x in tlen]),
                                              pairs(occ), nt('start'), n_in, label(root_label), L(cfams))
-    return term, defs
+    for nm, d in reversed(defs):
+        term = '(let %s := %s in %s)' % (nm, d, term)
+    return term, []
 
 
 def spec_families(rules, start, n, tmatch):
@@ -1049,7 +1056,7 @@ def coq_case(forest, tree, cobs, rt, strict=True):
         o = '(Some None)'
     else:
         o = '(Some (Some %s))' % L([coq_tree(t) for t in cobs])
-    return '(%s, %s, %s, %s)' % (B(strict), coq_forest(forest, rt), coq_tree(tree), o)
+    return rt.wrap('(%s, %s, %s, %s)' % (B(strict), coq_forest(forest, rt), coq_tree(tree), o))
 
 
 def tree_size(t):
@@ -1090,7 +1097,6 @@ def run_stream(ctx, stream, ngrammars, cyclic_wanted, maxlen, cases, meta, defs,
         if cyclic != cyclic_wanted:
             continue
         made += 1
-        rt = RuleTable('g%s%d' % (stream[0], made), opts['maybe_placeholders'])
         alphabet = 'ab'
         inputs = list(all_inputs(alphabet, maxlen))
         inputs += [''.join(rng.choice(alphabet) for _ in range(rng.randint(maxlen + 1, maxlen + 2))) for _ in range(3)]
@@ -1142,12 +1148,11 @@ def run_stream(ctx, stream, ngrammars, cyclic_wanted, maxlen, cases, meta, defs,
             strict = not has_shared_ambig(obs['lark_tree'])
             if not strict:
                 hist(ctx, shared_ambig_object_compared_modulo_flattening=stream)
-            cases.append(coq_case(forest, obs['tree'], cobs, rt, strict))
+            cases.append(coq_case(forest, obs['tree'], cobs, RuleTable('r', opts['maybe_placeholders']), strict))
             meta.append((g, lexer, text, opts, verdict))
             if amb:
                 ctx.sample({'grammar': g, 'lexer': lexer, 'text': text, 'options': opts,
                             'explicit_tree': repr(obs['tree'])[:600]}, limit=4)
-        defs.extend(rt.defs)
 
 
 def correspond(ctx):
@@ -1216,10 +1221,8 @@ def exotic_f6(ctx, cases, meta, defs):
             ctx.violation('exotic:CollapseAmbiguities-None', dict(witness(g, 'dynamic', text, opts), collapse=True), True, msg)
         if verdict:
             ctx.violation('property-oracle:%s' % verdict[0], witness(g, 'dynamic', text, opts), True, verdict[1])
-        rt = RuleTable('gx%d' % n, True)
-        cases.append(coq_case(export_forest(obs['root']), obs['tree'], observe_collapse(obs['lark_tree']), rt))
+        cases.append(coq_case(export_forest(obs['root']), obs['tree'], observe_collapse(obs['lark_tree']), RuleTable('r', True)))
         meta.append((g, 'dynamic', text, opts, verdict or msg))
-        defs.extend(rt.defs)
 
 
 def replay(ctx, case):
